@@ -3,7 +3,7 @@
 //! windows mapped on demand really map the right guest pages and data is coherent across windows.
 //! The production ioctl path of the crate runs (the ioctl symbol is interposed at link time).
 
-use crate::interpose::set_ioctl_handler;
+use crate::interpose::{set_ioctl_handler, set_mmap_xlate};
 use crate::layouts::tempfile;
 use std::cell::RefCell;
 use std::os::fd::AsRawFd;
@@ -11,6 +11,8 @@ use std::rc::Rc;
 use vm_memory::{FileOffset, GuestAddress, GuestRegionMmap, MmapRange, MmapRegion, MmapXenFlags};
 
 pub const PAGE: u64 = 4096;
+/// first device index handed out, in pages
+pub const INDEX_BASE: u64 = 0x10_0000;
 
 #[derive(Clone, Debug, PartialEq)]
 pub enum DevEvent {
@@ -21,7 +23,10 @@ pub enum DevEvent {
 
 #[derive(Default)]
 pub struct EmuState {
+    /// live windows as (device index in bytes, pages)
     pub live: Vec<(u64, u32)>,
+    /// first grant reference of each live window, by device index
+    pub refs: std::collections::HashMap<u64, u32>,
     pub log: Vec<DevEvent>,
     pub protocol_errors: Vec<String>,
     /// fail the n-th map-grant ioctl from now (0 = next)
@@ -85,7 +90,20 @@ impl Emu {
                     if count == 0 && s.zero_count_einval {
                         fail = true;
                     }
-                    let index = first as u64 * PAGE;
+                    // like gntdev_add_map: first fit among the live windows, in pages; the indexes
+                    // start at INDEX_BASE so that they coincide with no file position, guest
+                    // address or zero
+                    let mut idx_pages = INDEX_BASE;
+                    let mut wins: Vec<(u64, u32)> = s.live.clone();
+                    wins.sort();
+                    for (i, c) in wins {
+                        let ip = i / PAGE;
+                        if idx_pages + count as u64 <= ip {
+                            break;
+                        }
+                        idx_pages = idx_pages.max(ip + c as u64);
+                    }
+                    let index = idx_pages * PAGE;
                     s.log.push(DevEvent::MapGrant { first_ref: first, count, index, ok: !fail });
                     if fail {
                         return Some((-1, libc::EINVAL));
@@ -93,6 +111,7 @@ impl Emu {
                     // SAFETY: index field at offset 8
                     unsafe { *((arg as *mut u8).add(8) as *mut u64) = index };
                     s.live.push((index, count));
+                    s.refs.insert(index, first);
                     s.max_live = s.max_live.max(s.live.len());
                     Some((0, 0))
                 }
@@ -104,6 +123,7 @@ impl Emu {
                     match pos {
                         Some(p) => {
                             s.live.remove(p);
+                            s.refs.remove(&index);
                             Some((0, 0))
                         }
                         None => {
@@ -130,6 +150,36 @@ impl Emu {
             }
         });
         set_ioctl_handler(Some(handler));
+        // mmap on the device: an offset in the index range must name a live window exactly
+        // (gntdev_find_map_index); it is served from the pages of the window's grant references
+        let st = state.clone();
+        let ino = {
+            use std::os::unix::fs::MetadataExt;
+            file.metadata().unwrap().ino()
+        };
+        set_mmap_xlate(Some(Box::new(move |mfd: i32, off: i64, len: usize| -> Option<Result<i64, i32>> {
+            if (off as u64) < INDEX_BASE * PAGE {
+                return None;
+            }
+            // SAFETY: fstat on a descriptor number
+            let same = unsafe {
+                let mut stt: libc::stat = std::mem::zeroed();
+                libc::fstat(mfd, &mut stt) == 0 && stt.st_ino as u64 == ino
+            };
+            if !same {
+                return None;
+            }
+            let mut s = st.borrow_mut();
+            let pages = (len as u64 + PAGE - 1) / PAGE;
+            let hit = s.live.iter().any(|w| w.0 == off as u64 && w.1 as u64 == pages);
+            if !hit {
+                let msg = format!("mmap of device offset {:#x} ({} pages) names no live window {:x?}", off, pages, s.live);
+                s.protocol_errors.push(msg);
+                return Some(Err(libc::EINVAL));
+            }
+            let first = s.refs[&(off as u64)];
+            Some(Ok((first as u64 * PAGE) as i64))
+        })));
         Emu { file, pages, state }
     }
 
@@ -175,5 +225,6 @@ impl Emu {
 impl Drop for Emu {
     fn drop(&mut self) {
         set_ioctl_handler(None);
+        set_mmap_xlate(None);
     }
 }
